@@ -11,7 +11,7 @@ open YV YV.Y YV.SC YV.C
 
 def editNode (d : Dev) (a : A) : Option (Option A) :=      -- none: forbidden; some none: node removed
   match d.kind with
-  | .notSupported => some none
+  | .notSupported => if d.alone then some none else none      -- §7.18.3.2: it must be the only deviate statement
   | .add => if applicable a d.prop && (getProp a d.prop).isNone then some (some (setProp a d.prop (some d.val))) else none
   | .replace => if (getProp a d.prop).isSome then some (some (setProp a d.prop (some d.val))) else none
   | .delete => if d.prop = .dflt && getProp a d.prop = some d.val then some (some (setProp a d.prop none)) else none
